@@ -195,6 +195,27 @@ type Piece struct {
 // P builds a piece.
 func P(name string, data []byte) Piece { return Piece{name, data} }
 
+// Runs is a sequence of runs whose lengths cycle through lo..hi (match lengths around a boundary such as 258), each run a different byte value.
+func Runs(n, lo, hi int) []byte {
+	b := make([]byte, 0, n+hi)
+	l := lo
+	v := byte('A')
+	for len(b) < n {
+		for i := 0; i < l; i++ {
+			b = append(b, v)
+		}
+		v++
+		if v > 'Z' {
+			v = 'A'
+		}
+		l++
+		if l > hi {
+			l = lo
+		}
+	}
+	return b[:n]
+}
+
 // Kinds lists content kinds by name for ladders.
 var Kinds = []string{"zero", "rand", "r3", "text", "per7", "fib"}
 
@@ -215,6 +236,8 @@ func Make(kind string, n int, seed uint64) []byte {
 		return Fib(n, 30, seed)
 	case "nearuniform":
 		return NearUniform(n, seed)
+	case "runs258":
+		return Runs(n, 250, 270)
 	}
 	panic("unknown kind " + kind)
 }
